@@ -48,17 +48,18 @@ Proof.
 Qed.
 
 Lemma s_read_exact n s : nstream s -> 0 <= n <= zlen (s_after s) ->
-  s_read n s = (ztake n (s_after s), advance n s true false).
+  s_read n s = (ztake n (s_after s), advance n s (if 0 <? n then true else s_good s) (if 0 <? n then false else s_eof s)).
 Proof.
   intros (H1 & H2 & H3 & H4) Hn. unfold s_read. rewrite H1.
   assert (Hs : (s_size s <? n + s_pos s) = false) by (pose proof (zlen_nonneg (s_before s)); lia).
-  rewrite Hs. cbn [negb].
+  rewrite Hs. cbn [negb andb].
   destruct ((n <=? 0) || (s_pos s <? 0)) eqn:E.
   - assert (n = 0) by (pose proof (zlen_nonneg (s_before s)); lia). subst n.
     unfold advance, ztake, zdrop. cbn [Z.to_nat firstn skipn rev app zlen length Z.of_nat].
     rewrite Z.add_0_r. rewrite Z.add_0_r. reflexivity.
   - rewrite zip_take_spec. unfold advance. fold (ztake n (s_after s)). fold (zdrop n (s_after s)).
-    rewrite ztake_zlen by lia. reflexivity.
+    rewrite ztake_zlen by lia.
+    replace (n <=? 0) with false by lia. replace (0 <? n) with true by lia. reflexivity.
 Qed.
 
 Lemma s_seek_fwd k s : nstream s -> 0 <= k <= zlen (s_after s) ->
@@ -80,6 +81,7 @@ Proof.
   intros Hs Hsig Ha. cbn [scan_loop].
   assert (Hl : zlen (le_enc 4 (sp_sig sp)) = 4) by (apply zlen_le_enc; lia).
   rewrite s_read_exact; [|exact Hs|rewrite Ha, zlen_app; pose proof (zlen_nonneg rest); lia].
+  replace (0 <? 4) with true by reflexivity.
   rewrite Ha. rewrite (ztake_app_len 4) by exact Hl.
   unfold merge_scalar. rewrite Hl.
   replace (zdrop 4 (le_enc 4 0)) with (@nil Z) by reflexivity.
